@@ -65,6 +65,22 @@ fn run(ctx: &mut Ctx) {
     vx.verbose = true;
     ctx.exhaustive("U1-sgr x {plain,verbose}", u.subset_count() * 2, &|i| Case::new(u.subset(i / 2 + 1), if i % 2 == 0 { Cfg::default() } else { vx.clone() }), &case_fn);
 
+    // literal text that is a complete SGR sequence, with the end anchor disabled (the self-check
+    // strips colour codes from the expression and must not strip literal text)
+    let u2 = Universe::u1().lifted("lift:sgr-token", &[("a", "\u{1b}[1;3m"), ("b", "a"), ("c", "\u{1b}[0m")]);
+    let acfgs: Vec<Cfg> = [(false, false, false), (false, true, false), (true, true, false), (false, true, true)]
+        .iter()
+        .map(|&(s, e, x)| {
+            let mut c = Cfg::default();
+            c.no_start = s;
+            c.no_end = e;
+            c.verbose = x;
+            c
+        })
+        .collect();
+    let na = acfgs.len() as u64;
+    ctx.exhaustive("U1-sgr-token x anchors", u2.subset_count() * na, &|i| Case::new(u2.subset(i / na + 1), acfgs[(i % na) as usize].clone()), &case_fn);
+
     let total = ctx.tier.pick(40_000, 600_000);
     let max_ops = ctx.tier.pick(5, 10);
     let strat = move || case_strategy(&["sgr", "sgr", "meta", "digits", "abc", "repeat", "space", "boundary", "marks", "cased"], true, W_DEFAULT, max_ops, 5, fix);
